@@ -330,4 +330,9 @@ def mergeE [BEq κ] (f : Option (β → β → Out β)) (dicts : List (List (κ 
               | some f => foldlE f v vs) fun r => .ok (k, r))
     (uniqueBy id (dicts.flatMap fun d => d.map (·.1)))
 
+/-- `join sep xs` when the pieces have to be converted first (bytes separator): convert all
+pieces, left to right, then intercalate -/
+def joinE (sep : List γ) (disp : α → Out (List γ)) (xs : List α) : Out (List γ) :=
+  bind (mapE disp xs) fun ps => .ok (sep.intercalate ps)
+
 end Noulith.SeqSpec
